@@ -44,9 +44,9 @@ def rootLoop (bits x j : Nat) : Nat → Bool → Nat → Res Nat
          else rootLoop bits x j f false (min it (sshl1 bits r)))   -- (false, Greater)
       else rootLoop bits x j f true it             -- (_, Less)
 
-/-- fuel passed by `root`: enough for every run covered by the theorem (`Lemmas/Root.lean`), namely
-    `μ ≤ |g − s| + s + 3` iterations with `s ≤ x`. -/
-def rootFuel (x g : Nat) : Nat := x + g + 4
+/-- fuel passed by `root`: enough for every run covered by the theorem (`Lemmas/Root.lean`), which
+    needs at most `μ ≤ |g − s| + s + 3` iterations, and `s ≤ x`. -/
+def rootFuel (x g : Nat) : Nat := 2 * x + g + 4
 
 /-- `Uint::root` with the first guess `g` as a parameter. -/
 def root (bits x k g : Nat) : Res Nat :=
